@@ -531,12 +531,16 @@ def _match_fate(F, func, b, stmt, l):
     st = [errb]
     only_print = True
     returns = False
+    rejoins = False
     while st:
         x = st.pop()
         if x in seen:
             continue
         if x in ok_reach and x != errb:
-            continue  # rejoined the normal continuation
+            # rejoined the normal continuation - unless that "continuation" is just the common return block
+            if not _is_exit_block(func, x):
+                rejoins = True
+            continue
         seen.add(x)
         bt = func.blocks[x]["term"]
         for s in func.blocks[x]["stmts"]:
@@ -557,11 +561,32 @@ def _match_fate(F, func, b, stmt, l):
             else:
                 only_print = False
         st.extend(succs(bt))
+    if returns and rejoins:
+        # the error is returned on some paths of the Err arm and swallowed on others (`if cond { return Err(e) }`)
+        return "dropped:err-arm-returns-only-on-some-paths"
     if returns:
         return "propagated"
     if only_print:
         return "dropped:err-arm-only-prints"
     return "handled:match"
+
+
+def _is_exit_block(func, b):
+    """block that only drops locals and returns (the shared epilogue every path reaches)"""
+    hops = 0
+    while hops < 12:
+        blk = func.blocks[b]
+        if any(s["k"] == "assign" for s in blk["stmts"]):
+            return False
+        t = blk["term"]
+        if t["k"] == "return":
+            return True
+        if t["k"] in ("drop", "goto"):
+            b = t["t"]
+            hops += 1
+            continue
+        return False
+    return False
 
 
 # ---------------------------------------------------------------- guards (DESIGN 3.5)
